@@ -87,6 +87,7 @@ type mKey struct {
 	staleWake bool
 	lastEnd   string // how the most recent hold on this key ended (unlock / expiry)
 	released  [][16]byte // LockIds whose hold ended recently (generator bias: duplicate unlocks, re-use)
+	ended     map[[16]byte]bool // every LockId that ever held this key and no longer does
 }
 
 func (k *mKey) locked() int {
@@ -126,6 +127,10 @@ func (k *mKey) removeHolder(h *mHold) {
 	k.termsChanged = false
 	k.staleWake = false
 	k.released = append(k.released, h.id)
+	if k.ended == nil {
+		k.ended = map[[16]byte]bool{}
+	}
+	k.ended[h.id] = true
 	if len(k.released) > 6 {
 		k.released = k.released[1:]
 	}
